@@ -7,7 +7,7 @@ from .ref_jsonpath import is_singular
 
 NAMES_PLAIN = ["a", "b", "c", "d", "ab", "A", "_", "_a", "a1", "x"]
 NAMES_RESERVED = ["and", "or", "not", "in", "true", "false", "null", "nil", "none", "contains", "undefined", "missing", "True", "None", "length", "count"]
-NAMES_DIGITS = ["0", "1", "2", "01", "10", "-1", "+1", " 1", "1_0", "１", "1e0", "0x1", "12345678901234567890", "1\n", "0\n", "\n1", "1 ", "1\r", "-7\n", "1\t", "00"]
+NAMES_DIGITS = ["0", "1", "2", "01", "10", "-1", "+1", " 1", "1_0", "１", "1e0", "0x1", "12345678901234567890", "1\n", "0\n", "\n1", "1 ", "1\r", "-7\n", "1\t", "00", "\u00b2", "\u2460", "\u2082\u2083", "\u0663", "\u00bd"]
 NAMES_PUNCT = ["", "~", "/", "~1", "~0", "a/b", "m~n", "#", "#a", "#0", "-", "a-b", "$", "@", "*", ".", "..", "[", "]", "a b", " ", "?", ",", ":", "(", "|", "&", "^"]
 NAMES_QUOTE = ["'", '"', "\\", "a\\", "\\'", '\\"', "a'b", 'a"b', "\\\\", "\\n", "\\u0041"]
 NAMES_CTRL = ["\n", "\t", "\r", "\b", "\f", "\u0000", "\u001f", "\u007f", "a\nb"]
@@ -36,7 +36,8 @@ class DocGen:
     distinct (strings "v<n>" and distinct ints) so a value identifies its node;
     profile "lookalike": leaves from the bool/number/empty look-alike pool."""
 
-    LOOKALIKE = [True, False, 0, 1, -1, 1.0, 0.0, 0.5, 2, "", "a", "b", "1", "0", "true", None, [], {}, [1], [True], [1.0], {"a": 1}, {"a": True}]
+    LOOKALIKE = [True, False, 0, 1, -1, 1.0, 0.0, 0.5, 2, "", "a", "b", "1", "0", "true", None, [], {}, [1], [True], [1.0], {"a": 1}, {"a": True},
+                 '{"a": 1}', "[1, 2]", '"q"', "{bad", "null", "[]", '{"a": {"b": [0]}}']   # strings that happen to hold JSON text
 
     def __init__(self, r, *, profile="unique", hostile=0.5, max_depth=4, fan=4, names=None, alias=0.0):
         self.r = r
@@ -56,6 +57,8 @@ class DocGen:
             return [] if v == [] and isinstance(v, list) else ({} if v == {} and isinstance(v, dict) else (list(v) if isinstance(v, list) else (dict(v) if isinstance(v, dict) else v)))
         self.n += 1
         k = r.random()
+        if k < 0.04:
+            return r.choice(['{"a": "v%d", "b": [%d]}', '["v%d", %d]', '{"v%d": %d', '"v%d-%d"']) % (self.n, self.n)   # a string leaf holding JSON text
         if k < 0.45:
             return "v%d" % self.n
         if k < 0.8:
